@@ -9,6 +9,11 @@ import PgGen.C05Sig
 import PgProofs.C05Codec
 import PgProofs.C05Store
 import PgProofs.C05Keys
+import PgProofs.C05Str
+import PgProofs.C05Nested
+import PgProofs.C05Paths
+import PgProofs.C05Typed
+import PgProofs.C05Sig
 namespace Pg.C05
 
 /-! ## T-SIG: value specs can be rebuilt from what `to_json` emits -/
@@ -36,6 +41,50 @@ def rowOK (r : SigRow) : Bool :=
 required parameter that is always emitted. (F12: `Enum.default` was required and omittable.) -/
 theorem C05_sig_table : ∀ r ∈ sigTable, rowOK r = true := by decide
 
+
+/-- The same check phrased with `alookup` (what `sig_sound` consumes), plus: a key is listed once. -/
+def rowOK2 (r : SigRow) : Bool :=
+  (r.emitted.all fun (k, s) =>
+    alookup k r.ctor == some (some s) || equivDefaults.contains (r.cls, k) ||
+      (alookup k r.ctor == some none && neverOmitted.contains (r.cls, k))) &&
+  (r.emitted.all fun p => r.emitted.all fun q => p.1 != q.1 || p.2 == q.2)
+
+theorem C05_sig_table2 : ∀ r ∈ sigTable, rowOK2 r = true := by decide
+
+/-- What the table obligation buys, for every serialisable value-spec class of the current source
+and every record of constructor arguments (values abstract): `to_json_dict(exclude_default=True)`
+followed by `cls(**kwargs)` hands every argument back — the omitted ones through the constructor
+default, the always-present ones because they never equal the sentinel. (Modulo the documented
+`None ≡ []` normalisation of `Callable.args/kw`; the arguments themselves are specs / plain values,
+whose own round trip is the codec theorem / correspondence.) -/
+theorem C05_sig_roundtrip (r : SigRow) (hr : r ∈ sigTable) (args : String → String) (k s : String)
+    (hmem : (k, s) ∈ r.emitted) (hnorm : (r.cls, k) ∉ equivDefaults)
+    (hnever : (r.cls, k) ∈ neverOmitted → args k ≠ s) :
+    rebuildArg r.ctor (emitArgs args r.emitted) k = some (args k) := by
+  have h := C05_sig_table2 r hr
+  simp only [rowOK2, Bool.and_eq_true, List.all_eq_true] at h
+  have huniq : ∀ p ∈ r.emitted, p.1 = k → p.2 = s := by
+    intro p hp hk
+    have := h.2 p hp (k, s) hmem
+    simp only [Bool.or_eq_true, bne_iff_ne, ne_eq, beq_iff_eq] at this
+    rcases this with h1 | h1
+    · exact absurd hk h1
+    · exact h1
+  have hk := h.1 (k, s) hmem
+  simp only [Bool.or_eq_true, Bool.and_eq_true, beq_iff_eq, List.contains_iff_mem] at hk
+  apply sig_sound r.emitted r.ctor args k s hmem huniq
+  rcases hk with (h1 | h1) | h1
+  · exact .inl h1
+  · exact absurd h1 hnorm
+  · exact .inr (hnever h1.2)
+
+/-- F12 in this vocabulary: with `Enum.__init__(self, default, values, frozen=False)` (pinned tree)
+an Enum without default emits no `default` key and the constructor has nothing to fall back on. -/
+theorem C05_sig_F12_counterexample :
+    rebuildArg (V := String) [("default", none), ("values", none), ("frozen", some "False")]
+      (emitArgs (fun k => if k = "default" then "MISSING_VALUE" else if k = "values" then "[1, 2]" else "False")
+        [("default", "MISSING_VALUE"), ("values", "None"), ("frozen", "False")]) "default" = none := by
+  decide
 
 /-! ## Codec: object form -/
 
@@ -104,6 +153,40 @@ theorem C05_reserved_int_key_prefix {Text : Type} (dumps : JS → Text) (loads :
 
 theorem intKeyPrefix_eq : intKeyPrefix = ['n', '_', ':'] := by decide
 
+/-- ROUND TRIP, string form, for every tree: over any JSON text layer that is a bijection
+(`loads (dumps j) = some j`; Python's `json` is trusted to be one), a conforming value none of
+whose shapes is reserved — now including str keys / attribute names starting with `n_:` — comes
+back from `from_json_str (to_json_str v)` as the same tree. Int keys of any size and sign, at any
+depth, go through `f'n_:{k}'` / `int(k[3:])`; the dict comprehensions merge nothing. -/
+theorem C05_roundtrip_str {Text : Type} (dumps : JS → Text) (loads : Text → Option JS)
+    (hjson : ∀ j, loads (dumps j) = some j)
+    (env : ClassEnv) (hwf : env.WF = true) (ap : Bool) (t : Tree)
+    (hc : Conforms env t = true) (he : Encodable true t = true)
+    (hm : ap = true ∨ NoMissing t = true) :
+    fromJsonStr loads env ap (toJsonStr dumps env t) = .ok t := by
+  unfold fromJsonStr toJsonStr
+  rw [hjson]
+  simp only [dec_enc (toJson env t) (jok_tree env hwf t hc he)]
+  exact C05_roundtrip env hwf ap t hc (enc_mono t he) hm
+
+/-- The string-form statement with only the object-form exclusions … -/
+def C05_roundtrip_str_Full : Prop :=
+  ∀ (env : ClassEnv) (ap : Bool) (t : Tree), env.WF = true → Conforms env t = true →
+    Encodable false t = true → (ap = true ∨ NoMissing t = true) →
+    fromJsonStr (Text := JS) some env ap (toJsonStr id env t) = .ok t
+
+/-- … is false (F11c): `{'n_:5': 1}` is object-form encodable but loads as `{5: 1}`. -/
+theorem C05_roundtrip_str_counterexample : ¬ C05_roundtrip_str_Full := by
+  intro h
+  have := h noClasses false (.dict [(.s "n_:5".toList, .leaf (.int 1))]) rfl rfl rfl (.inr rfl)
+  have h2 : fromJsonStr (Text := JS) some noClasses false
+      (toJsonStr id noClasses (.dict [(.s "n_:5".toList, .leaf (.int 1))])) =
+      .ok (.dict [(.i 5, .leaf (.int 1))]) := rfl
+  rw [h2] at this
+  injection this with this
+  injection this with this
+  simp at this
+
 /-- KEY CODING of the string form, for every key: an int key (any size, any sign) and every str
 key that does not start with `n_:` survive `f'n_:{k}'` followed by `_get_key` (`int(k[3:])`);
 so the key coding is injective off the reserved prefix (`int ∘ str = id` is proved for the model's
@@ -125,6 +208,86 @@ theorem C05_key_codec_counterexample :
     encKey (.s "n_:5".toList) = encKey (.i 5) ∧ Key.s "n_:5".toList ≠ Key.i 5 := by
   refine ⟨?_, by decide⟩
   simp [encKey, intKeyPrefix, reprInt, natDigits, digitChar]
+
+/-! ## Stand-alone typed containers (F11d, F11e) -/
+
+/-- F11e, for every stand-alone typed dict: a key whose field is frozen, or whose value is MISSING
+(partial dict), is absent from what `from_json (to_json d)` returns — the schema branch of
+`sym_jsonify` hides it and no class schema puts it back. -/
+theorem C05_typed_dict_drops (env : ClassEnv) (ap : Bool) (d : TypedDict) (k : Str)
+    (hk : ∀ p ∈ d.items, p.1 = k → (frozenNames d.fields).contains k = true ∨ isMissing p.2 = true)
+    (hnt : typeKey ∉ d.items.map (·.1))
+    (t : Tree) (h : fromJson env ap (d.toJson env) = .ok t) :
+    ∃ kvs, t = .dict kvs ∧ tlookup k kvs = none := by
+  unfold fromJson at h
+  split at h
+  · have hno : jlookup (.s typeKey) (toJsonA env (frozenNames d.fields) d.items) = none := by
+      apply jlookup_none_of_not_mem
+      intro hm
+      obtain ⟨q, hq, e⟩ := List.mem_map.mp hm
+      obtain ⟨k', ek, hk'⟩ := toJsonA_keys env (frozenNames d.fields) d.items q hq
+      rw [ek] at e
+      injection e with e
+      exact hnt (e ▸ hk')
+    simp only [TypedDict.toJson, fromJ, hno] at h
+    cases hkv : fromJKV env ap (toJsonA env (frozenNames d.fields) d.items) with
+    | error e => simp [hkv] at h
+    | ok ts =>
+      simp only [hkv] at h
+      injection h with h
+      refine ⟨ts, h.symm, ?_⟩
+      apply tlookup_none_of_not_mem
+      rw [fromJKV_keys env ap _ ts hkv]
+      exact toJsonA_dropped env (frozenNames d.fields) k d.items hk
+  · cases h
+
+def fieldX : Field := { name := ['x'], kind := .int, noneable := false, default := none, frozen := false }
+def fieldY : Field := { name := ['y'], kind := .int, noneable := false, default := some (.leaf (.int 5)), frozen := true }
+def fieldZ : Field := { name := ['z'], kind := .int, noneable := false, default := some (.leaf (.int 3)), frozen := false }
+
+/-- `pg.Dict(x=1, value_spec=Dict([('x', Int()), ('y', Int().freeze(5))]))` -/
+def typedFrozen : TypedDict := ⟨[fieldX, fieldY], [(['x'], .leaf (.int 1)), (['y'], .leaf (.int 5))]⟩
+/-- `pg.Dict.partial(z=2, value_spec=Dict([('x', Int()), ('z', Int(default=3))]))` -/
+def typedPartial : TypedDict := ⟨[fieldX, fieldZ], [(['x'], .leaf .missing), (['z'], .leaf (.int 2))]⟩
+
+/-- "A typed dict loads back with the same key → value content" … -/
+def C05_typed_roundtrip_Full : Prop :=
+  ∀ (env : ClassEnv) (ap : Bool) (d : TypedDict) (t : Tree), fromJson env ap (d.toJson env) = .ok t →
+    ∃ kvs, t = .dict kvs ∧ ∀ k, tlookup k kvs = tlookup k d.content
+
+/-- … is false (F11e): the frozen field `y = 5` is in the original and not in the loaded dict. -/
+theorem C05_typed_roundtrip_counterexample : ¬ C05_typed_roundtrip_Full := by
+  intro hfull
+  have hload : fromJson noClasses false (typedFrozen.toJson noClasses) = .ok (.dict [(.s ['x'], .leaf (.int 1))]) := by
+    simp [fromJson, TypedDict.toJson, typedFrozen, toJsonA, frozenNames, fieldX, fieldY, isMissing, toJson,
+      atomJ, resolveOk, resolveOkKV, jlookup, typeKey, fromJ, fromJKV]
+  obtain ⟨kvs, e, hk⟩ := hfull noClasses false typedFrozen _ hload
+  injection e with e
+  have := hk ['y']
+  rw [← e] at this
+  simp [tlookup, TypedDict.content, typedFrozen] at this
+
+/-- F11e, the partial case: `x = MISSING` is dropped, the loaded dict is `{z: 2}`. -/
+theorem C05_typed_partial_loads :
+    fromJson noClasses true (typedPartial.toJson noClasses) = .ok (.dict [(.s ['z'], .leaf (.int 2))]) := by
+  simp [fromJson, TypedDict.toJson, typedPartial, toJsonA, frozenNames, fieldX, fieldZ, isMissing, toJson,
+    atomJ, resolveOk, resolveOkKV, jlookup, typeKey, fromJ, fromJKV]
+
+/-- F11d: the value spec is not part of the JSON. The original rejects a write to an unknown key
+(KeyError) and an ill-typed write (TypeError); what is loaded is a schema-less `pg.Dict` (`Tree.dict`
+carries no spec), on which every `d[k] = v` succeeds. Likewise for a typed list. -/
+theorem C05_typed_spec_lost :
+    typedFrozen.set "nope".toList (.leaf (.int 1)) = .error .key ∧
+    (typedFrozen.set ['x'] (.leaf (.str ['s']))).toOption.isNone = true ∧
+    (∃ kvs, fromJson noClasses false (typedFrozen.toJson noClasses) = .ok (.dict kvs)) ∧
+    (∃ l' : TypedList, l' = ⟨.int, some 3, [.leaf (.int 1), .leaf (.int 2)]⟩ ∧
+      (l'.append (.leaf (.str ['z']))).toOption.isNone = true ∧
+      fromJson noClasses false (l'.toJson noClasses) = .ok (.list [.leaf (.int 1), .leaf (.int 2)])) := by
+  refine ⟨by rfl, by rfl, ⟨[(.s ['x'], .leaf (.int 1))], ?_⟩, ⟨_, rfl, by rfl, ?_⟩⟩
+  · simp [fromJson, TypedDict.toJson, typedFrozen, toJsonA, frozenNames, fieldX, fieldY, isMissing, toJson,
+      atomJ, resolveOk, resolveOkKV, jlookup, typeKey, fromJ, fromJKV]
+  · simp [fromJson, TypedList.toJson, toJsonL, toJson, atomJ, resolveOk, resolveOkL, fromJ, fromJL,
+      jisTupleMarker]
 
 /-! ## Stores -/
 
@@ -207,6 +370,239 @@ theorem C05_read_your_writes (cfg : FsCfg) (ht : cfg.truncateOnW = true) (ha : c
     simp only [run, specRun]
     rw [h2] at i2 i3
     exact ⟨i1, i2, by rw [h3, i3]⟩
+
+/-! ### Nested directories -/
+
+/-- A universe of file locations no one of which lies inside another (a file is never used as a
+directory). -/
+def PrefixFree (U : List FKey) : Prop :=
+  ∀ u ∈ U, ∀ v ∈ U, u = v ∨ incomp2 u.1 u.2 v.1 v.2 = true
+
+/-- Invariant: every location of the universe is usable (no component is a file, the location is
+not a directory). Holds of the empty file system. -/
+def Inv2 (U : List FKey) (es : Dir) : Prop := ∀ u ∈ U, free2 es u.1 u.2 = true
+
+abbrev Abs2 := FKey → Option (List Char)
+def absOf2 (es : Dir) : Abs2 := fun u => fileAt2 es u.1 u.2
+def upd2 (a : Abs2) (u : FKey) (c : List Char) : Abs2 := fun v => if u = v then some c else a v
+
+/-- save / load / sequence append and read on a well-located path of the universe (the path may
+lie in any depth of directories, which `pg.save` / `open_sequence` create on demand). -/
+def OpOK2 (cfg : FsCfg) (U : List FKey) : Op → Bool
+  | .save p _ | .load p | .seqWrite p _ _ | .seqRead p => PathOK cfg p && U.contains (kp cfg p)
+  | _ => false
+
+def specStep2 (cfg : FsCfg) (a : Abs2) : Op → Abs2 × Out
+  | .save p c => (upd2 a (kp cfg p) c, .unit)
+  | .load p => (a, match a (kp cfg p) with
+      | some c => .content c
+      | none => .err .notFound)
+  | .seqWrite p m recs => (upd2 a (kp cfg p) (newC (a (kp cfg p)) (linesOf recs) m), .unit)
+  | .seqRead p => (a, match a (kp cfg p) with
+      | some c => .records (readLines c)
+      | none => .err .notFound)
+  | _ => (a, .unit)
+
+def specRun2 (cfg : FsCfg) : Abs2 → List Op → Abs2 × List Out
+  | a, [] => (a, [])
+  | a, op :: ops =>
+    let (a1, o) := specStep2 cfg a op
+    let (a2, os) := specRun2 cfg a1 ops
+    (a2, o :: os)
+
+theorem putAt_refines (U : List FKey) (hU : PrefixFree U) (es : Dir) (hinv : Inv2 U es)
+    (k : FKey) (hk : k ∈ U) (c : List Char) :
+    Inv2 U (putAt es k.1 k.2 c) ∧ ∀ u ∈ U, absOf2 (putAt es k.1 k.2 c) u = upd2 (absOf2 es) k c u := by
+  constructor
+  · intro u hu
+    rcases hU k hk u hu with rfl | hi
+    · exact (fileAt2_putAt_same k.1 es k.2 c).2
+    · exact (putAt_other k.1 es k.2 c u.1 u.2 hi).2 (hinv u hu)
+  · intro u hu
+    rcases hU k hk u hu with rfl | hi
+    · simp [absOf2, upd2, (fileAt2_putAt_same k.1 es k.2 c).1]
+    · have hne : k ≠ u := by
+        intro e; subst e
+        have : ∀ (pk : List Name) (nm : Name), incomp2 pk nm pk nm = false := by
+          intro pk; induction pk with
+          | nil => intro nm; simp [incomp2]
+          | cons x pk ih => intro nm; simp [incomp2, ih]
+        rw [this] at hi; cases hi
+      simp [absOf2, upd2, hne, (putAt_other k.1 es k.2 c u.1 u.2 hi).1]
+
+/-- REFINEMENT for nested paths, per operation. -/
+theorem C05_store_refines_nested (cfg : FsCfg) (ht : cfg.truncateOnW = true)
+    (ha : cfg.appendAtEnd = true) (U : List FKey) (hU : PrefixFree U) (es : Dir) (hinv : Inv2 U es)
+    (op : Op) (hop : OpOK2 cfg U op = true) :
+    Inv2 U (step cfg es op).1 ∧
+    (∀ u ∈ U, absOf2 (step cfg es op).1 u = (specStep2 cfg (absOf2 es) op).1 u) ∧
+    (step cfg es op).2 = (specStep2 cfg (absOf2 es) op).2 := by
+  cases op with
+  | save p c =>
+    simp only [OpOK2, Bool.and_eq_true, List.contains_iff_mem] at hop
+    have hf := hinv _ hop.2
+    simp only [step, saveFile, mkdirsApi_nested cfg es p hop.1 hf,
+      writeFile_nested cfg es p c .w hop.1 hf ht ha, specStep2, newC]
+    obtain ⟨h1, h2⟩ := putAt_refines U hU es hinv (kp cfg p) hop.2 c
+    exact ⟨h1, h2, trivial⟩
+  | load p =>
+    simp only [OpOK2, Bool.and_eq_true, List.contains_iff_mem] at hop
+    have hf := hinv _ hop.2
+    simp only [step, readFile_nested cfg es p hop.1 hf, specStep2, absOf2]
+    cases fileAt2 es (kp cfg p).1 (kp cfg p).2 <;> exact ⟨hinv, fun _ _ => rfl, rfl⟩
+  | seqWrite p m recs =>
+    simp only [OpOK2, Bool.and_eq_true, List.contains_iff_mem] at hop
+    have hf := hinv _ hop.2
+    simp only [step, seqWrite, mkdirsApi_nested cfg es p hop.1 hf,
+      writeFile_nested cfg es p (linesOf recs) m hop.1 hf ht ha, specStep2]
+    obtain ⟨h1, h2⟩ := putAt_refines U hU es hinv (kp cfg p) hop.2
+      (newC (fileAt2 es (kp cfg p).1 (kp cfg p).2) (linesOf recs) m)
+    exact ⟨h1, h2, trivial⟩
+  | seqRead p =>
+    simp only [OpOK2, Bool.and_eq_true, List.contains_iff_mem] at hop
+    have hf := hinv _ hop.2
+    simp only [step, seqRead, readFile_nested cfg es p hop.1 hf, specStep2, absOf2]
+    cases fileAt2 es (kp cfg p).1 (kp cfg p).2 <;> exact ⟨hinv, fun _ _ => rfl, rfl⟩
+  | write p c m => simp [OpOK2] at hop
+  | mkdirs p => simp [OpOK2] at hop
+  | exists_ p => simp [OpOK2] at hop
+  | listdir p => simp [OpOK2] at hop
+
+/-- The spec only looks at, and only changes, locations of the universe. -/
+theorem specStep2_congr (cfg : FsCfg) (U : List FKey) (a b : Abs2) (hab : ∀ u ∈ U, a u = b u)
+    (op : Op) (hop : OpOK2 cfg U op = true) :
+    (∀ u ∈ U, (specStep2 cfg a op).1 u = (specStep2 cfg b op).1 u) ∧
+    (specStep2 cfg a op).2 = (specStep2 cfg b op).2 := by
+  have hupd : ∀ (k : FKey) (c : List Char), ∀ u ∈ U, upd2 a k c u = upd2 b k c u := by
+    intro k c u hu
+    simp only [upd2]
+    split
+    · rfl
+    · exact hab u hu
+  cases op with
+  | save p c => exact ⟨hupd _ _, rfl⟩
+  | load p =>
+    simp only [OpOK2, Bool.and_eq_true, List.contains_iff_mem] at hop
+    simp only [specStep2, hab _ hop.2]
+    exact ⟨hab, trivial⟩
+  | seqWrite p m recs =>
+    simp only [OpOK2, Bool.and_eq_true, List.contains_iff_mem] at hop
+    simp only [specStep2, hab _ hop.2]
+    exact ⟨hupd _ _, trivial⟩
+  | seqRead p =>
+    simp only [OpOK2, Bool.and_eq_true, List.contains_iff_mem] at hop
+    simp only [specStep2, hab _ hop.2]
+    exact ⟨hab, trivial⟩
+  | write p c m => simp [OpOK2] at hop
+  | mkdirs p => simp [OpOK2] at hop
+  | exists_ p => simp [OpOK2] at hop
+  | listdir p => simp [OpOK2] at hop
+
+/-- READ YOUR WRITES for nested paths: every history of save / overwrite / append / load / read
+over any prefix-free set of well-located paths, at any directory depth, started from any state
+satisfying the invariant (e.g. the empty file system), returns the outputs of the abstract store
+`location ↦ content`. -/
+theorem C05_read_your_writes_nested (cfg : FsCfg) (ht : cfg.truncateOnW = true)
+    (ha : cfg.appendAtEnd = true) (U : List FKey) (hU : PrefixFree U) :
+    ∀ (ops : List Op) (es : Dir) (a : Abs2), Inv2 U es → (∀ u ∈ U, absOf2 es u = a u) →
+      (∀ op ∈ ops, OpOK2 cfg U op = true) →
+      Inv2 U (run cfg es ops).1 ∧
+      (∀ u ∈ U, absOf2 (run cfg es ops).1 u = (specRun2 cfg a ops).1 u) ∧
+      (run cfg es ops).2 = (specRun2 cfg a ops).2 := by
+  intro ops
+  induction ops with
+  | nil => intro es a h hab _; exact ⟨h, hab, rfl⟩
+  | cons op ops ih =>
+    intro es a hinv hab hops
+    have hop := hops op (List.mem_cons_self ..)
+    obtain ⟨h1, h2, h3⟩ := C05_store_refines_nested cfg ht ha U hU es hinv op hop
+    obtain ⟨c1, c2⟩ := specStep2_congr cfg U (absOf2 es) a hab op hop
+    obtain ⟨i1, i2, i3⟩ := ih (step cfg es op).1 (specStep2 cfg a op).1 h1
+      (fun u hu => by rw [h2 u hu, c1 u hu]) (fun o ho => hops o (List.mem_cons_of_mem _ ho))
+    simp only [run, specRun2]
+    exact ⟨i1, i2, by rw [h3, c2, i3]⟩
+
+theorem Inv2_nil (U : List FKey) : Inv2 U [] := fun u _ => free2_nil u.1 u.2
+
+/-- CANONICAL PATHS: the path strings users write, `"/mem/" ++ d₁/…/dₙ/name` with non-empty,
+slash-free components (any depth n ≥ 0), are well located on the patched tree (`PathOK`), and their
+abstract key is `([d₁,…,dₙ], name)` — so the store theorems apply to them. (On the pinned tree this
+fails: `C05_pinned_lstrip`.) -/
+theorem C05_canonical_paths (dirs : List Name) (name : Name) (hd : ∀ w ∈ dirs, GoodComp w)
+    (hn : GoodComp name) :
+    PathOK FsCfg.patched (memPrefix ++ joinSlash (dirs ++ [name])) = true ∧
+    kp FsCfg.patched (memPrefix ++ joinSlash (dirs ++ [name])) = (dirs, name) :=
+  canonical_PathOK dirs name hd hn
+
+/-- … in particular `"/mem/" ++ name` satisfies the hypothesis of the flat theorems. -/
+theorem C05_canonical_flat (name : Name) (hn : GoodComp name) :
+    FlatOK FsCfg.patched (memPrefix ++ name) = true := by
+  obtain ⟨h1, h2⟩ := canonical_PathOK [] name (fun _ h => by cases h) hn
+  have e : memPrefix ++ joinSlash ([] ++ [name]) = memPrefix ++ name := rfl
+  rw [e] at h1 h2
+  simp only [PathOK, Bool.and_eq_true, beq_iff_eq] at h1
+  simp only [kp, Prod.mk.injEq] at h2
+  simp only [FlatOK, Bool.and_eq_true, beq_iff_eq, List.isEmpty_iff]
+  refine ⟨⟨?_, h2.1⟩, ?_⟩
+  · rw [h1.1.1, h2.1, h2.2]; rfl
+  · rw [h1.1.2, h2.1]
+
+theorem specRun2_frame (cfg : FsCfg) (x : FKey) : ∀ (ops : List Op) (a : Abs2),
+    (∀ op ∈ ops, ∀ p c, op ≠ .save p c ∨ kp cfg p ≠ x) →
+    (∀ op ∈ ops, ∀ p m r, op ≠ .seqWrite p m r ∨ kp cfg p ≠ x) →
+    (specRun2 cfg a ops).1 x = a x := by
+  intro ops
+  induction ops with
+  | nil => intro a _ _; rfl
+  | cons op ops ih =>
+    intro a h1 h2
+    have hstep : (specStep2 cfg a op).1 x = a x := by
+      cases op with
+      | save p c =>
+        rcases h1 _ (List.mem_cons_self ..) p c with h | h
+        · exact absurd rfl h
+        · simp [specStep2, upd2, h]
+      | seqWrite p m r =>
+        rcases h2 _ (List.mem_cons_self ..) p m r with h | h
+        · exact absurd rfl h
+        · simp [specStep2, upd2, h]
+      | _ => rfl
+    simp only [specRun2]
+    rw [ih _ (fun o ho => h1 o (List.mem_cons_of_mem _ ho)) (fun o ho => h2 o (List.mem_cons_of_mem _ ho)),
+      hstep]
+
+/-- LAST WRITE WINS at any directory depth: from the empty file system, after any history over a
+prefix-free universe of well-located paths, once `c` is saved to `p`, and whatever is saved or
+appended to *other* locations afterwards, loading `p` returns `c`. -/
+theorem C05_load_returns_last_save_nested (cfg : FsCfg) (ht : cfg.truncateOnW = true)
+    (ha : cfg.appendAtEnd = true) (U : List FKey) (hU : PrefixFree U)
+    (before after : List Op) (p : Path) (c : List Char)
+    (hp : OpOK2 cfg U (.load p) = true)
+    (hb : ∀ op ∈ before, OpOK2 cfg U op = true) (hafter : ∀ op ∈ after, OpOK2 cfg U op = true)
+    (ho1 : ∀ op ∈ after, ∀ q d, op ≠ .save q d ∨ kp cfg q ≠ kp cfg p)
+    (ho2 : ∀ op ∈ after, ∀ q m r, op ≠ .seqWrite q m r ∨ kp cfg q ≠ kp cfg p) :
+    let s1 := (run cfg [] before).1
+    let s2 := (step cfg s1 (.save p c)).1
+    let s3 := (run cfg s2 after).1
+    (step cfg s3 (.load p)).2 = .content c := by
+  intro s1 s2 s3
+  have hsave : OpOK2 cfg U (.save p c) = true := hp
+  have hmem : kp cfg p ∈ U := by
+    simp only [OpOK2, Bool.and_eq_true, List.contains_iff_mem] at hp; exact hp.2
+  obtain ⟨f1, _, _⟩ := C05_read_your_writes_nested cfg ht ha U hU before [] (absOf2 [])
+    (Inv2_nil U) (fun _ _ => rfl) hb
+  obtain ⟨f2, a2, _⟩ := C05_store_refines_nested cfg ht ha U hU s1 f1 (.save p c) hsave
+  obtain ⟨f3, a3, _⟩ := C05_read_your_writes_nested cfg ht ha U hU after s2 (absOf2 s2) f2
+    (fun _ _ => rfl) hafter
+  obtain ⟨_, _, o4⟩ := C05_store_refines_nested cfg ht ha U hU s3 f3 (.load p) hp
+  rw [o4]
+  have : absOf2 s3 (kp cfg p) = some c := by
+    show absOf2 (run cfg s2 after).1 (kp cfg p) = some c
+    rw [a3 _ hmem, specRun2_frame cfg (kp cfg p) after _ ho1 ho2]
+    show absOf2 (step cfg s1 (.save p c)).1 (kp cfg p) = some c
+    rw [a2 _ hmem]
+    simp [specStep2, upd2]
+  simp only [specStep2, this]
 
 /-- The name an operation writes to (in the abstract store). -/
 def writesTo : Op → Option Name
@@ -341,5 +737,12 @@ example : envP.WF = true ∧ Conforms envP sampleTree = true ∧ Encodable false
 example : OpOK FsCfg.patched (.save "/mem/m.json".toList ['1']) = true := by decide
 example : OpOK FsCfg.patched (.seqWrite "/mem/data.jsonl".toList .a [['r']]) = true := by decide
 example : FsCfg.patched.truncateOnW = true ∧ FsCfg.patched.appendAtEnd = true := by decide
+/-- A prefix-free universe with nested locations, and an operation on it. -/
+example : PrefixFree [(["m".toList, "e".toList], "m.json".toList), (["m".toList], "x".toList), ([], "me".toList)] := by
+  intro u hu v hv
+  simp only [List.mem_cons, List.mem_singleton, List.not_mem_nil, or_false] at hu hv
+  rcases hu with rfl | rfl | rfl <;> rcases hv with rfl | rfl | rfl <;> first | exact .inl rfl | exact .inr (by decide)
+example : OpOK2 FsCfg.patched [(["m".toList, "e".toList], "m.json".toList)] (.save "/mem/m/e/m.json".toList ['1']) = true := by decide
+example : GoodComp "m.json".toList := ⟨by decide, by decide⟩
 
 end Pg.C05
